@@ -217,3 +217,36 @@ def write_evidence(out, prop, engine, tier, seed, wall, evaluations, nontrivial,
     os.makedirs(os.path.dirname(out), exist_ok=True)
     with open(out, "w", encoding="utf8") as f:
         json.dump(ev, f, indent=1, ensure_ascii=False)
+
+
+def macro_item_names():
+    """Dictionary for name-collision programs: the names of items (const / static / fn / struct / enum / type)
+    that konst's macro_rules! bodies declare, harvested from /repo's current sources.  macro_rules! hygiene does
+    not cover items, so a caller constant with one of these names is the input that shows whether the macro keeps
+    its helper items in a scope of their own.  Returns {"const": [...], "fn": [...], "type": [...]}."""
+    import re
+    out = {"const": set(), "fn": set(), "type": set()}
+    for root in ("/repo/konst/src", "/repo/konst_kernel/src"):
+        for path in glob.glob(os.path.join(root, "**", "*.rs"), recursive=True):
+            try:
+                text = open(path, encoding="utf8").read()
+            except OSError:
+                continue
+            for m in re.finditer(r"macro_rules!\s*[A-Za-z_0-9]+\s*\{", text):
+                depth, i = 1, m.end()
+                while i < len(text) and depth:
+                    c = text[i]
+                    depth += (c == "{") - (c == "}")
+                    i += 1
+                body = text[m.end():i]
+                for mm in re.finditer(r"\b(?:const|static)\s+(?:mut\s+)?([A-Z_][A-Z0-9_a-z]*)\s*:", body):
+                    out["const"].add(mm.group(1))
+                for mm in re.finditer(r"\bfn\s+([a-z_][A-Za-z0-9_]*)\s*[<(]", body):
+                    out["fn"].add(mm.group(1))
+                for mm in re.finditer(r"\b(?:struct|enum|type|trait|union)\s+([A-Z_][A-Za-z0-9_]*)", body):
+                    out["type"].add(mm.group(1))
+    # names the authors mangled on purpose (`__ARGS_81608BFNA5`, `CAP_KO9Y329U2U`, anything starting with `__`) are
+    # konst's way of avoiding collisions: a caller using one of those is not a realistic program, so they are left out
+    def ordinary(n):
+        return not n.startswith("__") and not re.search(r"[0-9]{3,}", n) and n not in ("_", "K", "Self")
+    return {k: sorted(n for n in v if ordinary(n)) for k, v in out.items()}
